@@ -30,6 +30,8 @@ struct Hist {
     live: Vec<(Vec<u8>, u32)>,
     all_txs: Vec<TxDesc>,
     counter: u64,
+    /// outputs above 21M coins created so far (bounded: 16 x 2^56 stays far below 2^64 on one address)
+    big_values: u32,
 }
 
 impl Hist {
@@ -39,6 +41,7 @@ impl Hist {
             live: vec![],
             all_txs: vec![],
             counter: 0,
+            big_values: 0,
         }
     }
     fn new_block(&mut self) {
@@ -134,8 +137,11 @@ fn create_tx(hist: &mut Hist, coin: &str, keys: &[Vec<u8>], n_out: usize, rng: &
             // a small palette half of the time: equal values on one address, zero values
             value: match rng.below(40) {
                 // beyond Bitcoin's 21M-coin cap (other coins have none, and the dumps promise exact sums):
-                // rare enough that an address total stays far below 2^64
-                39 => *rng.pick(&[2_100_000_000_000_000u64, 2_100_000_000_000_001, 10_000_000_000_000_000, 1 << 56]),
+                // at most 16 per history, so an address total stays far below 2^64
+                39 if n_out <= 16 && hist.big_values < 16 => {
+                    hist.big_values += 1;
+                    *rng.pick(&[2_100_000_000_000_000u64, 2_100_000_000_000_001, 10_000_000_000_000_000, 1 << 56])
+                }
                 _ => 0,
             }
             .max(match rng.below(16) {
